@@ -1392,6 +1392,16 @@ func (m *StateMachine) recordProposedHeader(
 ) (ok bool) {
 	h, r := rlc.H, rlc.R
 
+	if rlc.OutgoingActionsCh == nil {
+		// We are not a validator in this round, so the mirror accepts no actions from us:
+		// sending on the nil channel below would block forever.
+		m.log.Warn(
+			"Ignoring proposal from consensus strategy because we are not a validator in this round",
+			"height", h, "round", r,
+		)
+		return true
+	}
+
 	var commitProof tmconsensus.CommitProof
 	if h > m.genesis.InitialHeight {
 		// We need to make a finalized commit proof,
